@@ -300,6 +300,14 @@ func (ex *Exec) vsymAssert(st *State, fr *Frame, dst ssa.Value, c *Term, msg str
 			Harness: ex.curHarness, Msg: site, Inputs: vals, Kinds: kinds, Kind: "assert",
 			Notes: append([]Note(nil), st.notes...), Choices: append([]string(nil), st.choices...),
 		})
+		// keep exploring the behaviours that satisfy the assertion
+		if can, m2 := ex.feasibleOne(st, c); can {
+			st.addPC(c)
+			st.model, st.modelOK = m2, m2 != nil
+			st.note("violated-earlier", site)
+			ex.ret(fr, dst, nil)
+			return
+		}
 		ex.endPath(st, "violation", site)
 	default:
 		ex.inconclusive("solver unknown on assertion " + site)
